@@ -118,15 +118,66 @@ def _worker(args):
                 "crash": traceback.format_exc()[-3000:]}
 
 
+def _child(conn, args):
+    try:
+        conn.send(_worker(args))
+    except BaseException:                       # the parent reports a missing result as a crash
+        try:
+            conn.send({"family": args[1], "results": [], "seconds": 0.0, "crash": traceback.format_exc()[-3000:]})
+        except Exception:
+            pass
+    finally:
+        conn.close()
+
+
 def run_families(module, facts, families, tier, procs=None):
+    """One forked process per family, at most `procs` at a time.  A family whose process dies without a result (segfault,
+    out of memory, RecursionError in C code) is a checker crash of that family; a family that exceeds the wall-clock
+    limit is killed and undecided -- a check never hangs and never passes or fails because of either."""
     _G["module"] = module
     _G["facts"] = facts
     procs = procs or min(16, max(1, len(families)))
     if os.environ.get("VC_SERIAL") or procs == 1:
         return [_worker((module.PROPERTY, f, tier)) for f in families]
+    limit = float(os.environ.get("VC_FAMILY_TIMEOUT", "900" if tier == "quick" else "3600"))
     ctx = mp.get_context("fork")
-    with ctx.Pool(procs, maxtasksperchild=1) as pool:
-        return pool.map(_worker, [(module.PROPERTY, f, tier) for f in families], chunksize=1)
+    pending = list(enumerate(families))
+    running = {}            # index -> (process, parent_conn, t0, family)
+    out = [None] * len(families)
+    while pending or running:
+        while pending and len(running) < procs:
+            i, fam = pending.pop(0)
+            pc, cc = ctx.Pipe(duplex=False)
+            pr = ctx.Process(target=_child, args=(cc, (module.PROPERTY, fam, tier)))
+            pr.start()
+            cc.close()
+            running[i] = (pr, pc, time.time(), fam)
+        done = []
+        for i, (pr, pc, t0, fam) in running.items():
+            if pc.poll(0):
+                try:
+                    out[i] = pc.recv()
+                except (EOFError, OSError):
+                    out[i] = {"family": fam, "results": [], "seconds": time.time() - t0,
+                              "crash": f"worker process of family {fam} ended without a result (exit code {pr.exitcode})"}
+                done.append(i)
+            elif not pr.is_alive():
+                out[i] = {"family": fam, "results": [], "seconds": time.time() - t0,
+                          "crash": f"worker process of family {fam} died without a result (exit code {pr.exitcode})"}
+                done.append(i)
+            elif time.time() - t0 > limit:
+                pr.kill()
+                out[i] = {"family": fam, "seconds": time.time() - t0,
+                          "results": [{"name": f"{module.PROPERTY}:{fam}:timeout", "clause": "unsupported", "status": "undecided",
+                                       "seconds": time.time() - t0, "reason": f"family exceeded the wall-clock limit of {limit:.0f}s"}]}
+                done.append(i)
+        for i in done:
+            pr, pc, _, _ = running.pop(i)
+            pr.join(timeout=5)
+            pc.close()
+        if not done:
+            time.sleep(0.02)
+    return out
 
 
 # ------------------------------------------------------------------------------------------
